@@ -1191,6 +1191,81 @@ const REQUIRED_FAMILIES: &[&str] = &[
     "where:Union", "where:empty",
 ];
 
+// ---------------------------------------------------------------------------------------------
+// string literals: escapes and \uXXXX sequences (surrogate pairs, lone and unfinished halves)
+// decoded by the shared string lexer, differentially against serde_json on the common subset
+// (printable characters, the standard escapes, \u escapes). In-process: the inputs are short.
+
+fn json_string_case(_idx: u64, rng: &mut Rng, st: &mut Stats) {
+    const HEX: [&str; 22] = [
+        "0041", "00e9", "0000", "0022", "005C", "20ac", "D7FF", "d800", "D83D", "DBFF", "dc00", "DE00", "dfff", "E000", "FFFF", "fffe", "D800", "DC00", "d83d", "de0a", "1F60", "abcd",
+    ];
+    let n = 1 + rng.usize(6);
+    let mut body = String::new();
+    for _ in 0..n {
+        match rng.below(10) {
+            0 | 1 => body.push(*rng.pick(&['a', 'Z', ' ', '7', '/', '-'])),
+            2 => body.push(*rng.pick(&['\u{e9}', '\u{20ac}', '\u{1F600}', '\u{10400}'])),
+            3 => body.push_str(*rng.pick(&["\\n", "\\t", "\\\"", "\\\\", "\\/", "\\b", "\\f", "\\r"])),
+            4 => body.push_str(*rng.pick(&["\\x", "\\u12", "\\u", "\\uZZZZ", "\\ud83d\\u", "\\uD83D\\n"])),
+            5 => {
+                // a well-formed pair
+                body.push_str(&format!("\\u{}\\u{}", rng.pick(&["D83D", "d800", "DBFF", "D801"]), rng.pick(&["DE0A", "dc00", "DFFF", "DC37"])));
+            }
+            _ => body.push_str(&format!("\\u{}", rng.pick(&HEX))),
+        }
+    }
+    let lit = format!("\"{body}\"");
+    st.eval();
+    st.count("json_string_literals");
+    let reference: Result<String, String> = serde_json::from_str::<String>(&lit).map_err(|e| e.to_string());
+    let got = anda_kip::parse_json(&lit);
+    match (&reference, &got) {
+        (Ok(r), Ok(v)) => {
+            st.count("json_string_both_accept");
+            if v.as_str() != Some(r.as_str()) {
+                st.violation("C15/string-escape/decoded-value-differs-from-json", json!({"literal": lit, "reference": r, "got": v.to_string(),
+                    "reference_scalars": r.chars().map(|c| format!("U+{:04X}", c as u32)).collect::<Vec<_>>()}));
+                return;
+            }
+            if lit.to_ascii_lowercase().contains("\\ud8") || lit.to_ascii_lowercase().contains("\\udb") {
+                st.count("json_string_surrogate_pairs_decoded");
+            }
+        }
+        (Err(_), Err(_)) => st.count("json_string_both_refuse"),
+        (Err(e), Ok(v)) => {
+            st.violation("C15/string-escape/ill-formed-escape-accepted", json!({"literal": lit, "json_says": e, "got": v.to_string()}));
+            return;
+        }
+        (Ok(r), Err(e)) => {
+            st.violation("C15/string-escape/well-formed-string-refused", json!({"literal": lit, "reference": r, "error": format!("{e:?}")}));
+            return;
+        }
+    }
+    // the same literal inside a command: accepted exactly when the literal is well-formed, by every
+    // entry point that reaches the string lexer
+    let kql = format!("FIND(?x) WHERE {{ ?x {{name: {lit}}} }}");
+    let kml = format!("CREATE CONCEPT ?c {{ TYPE \"T\" NAME {lit} }}");
+    let meta = format!("SEARCH CONCEPT {lit}");
+    for (entry, text, ok) in [
+        ("parse_kql", &kql, anda_kip::parse_kql(&kql).is_ok()),
+        ("parse_kml", &kml, anda_kip::parse_kml(&kml).is_ok()),
+        ("parse_kip", &kml, anda_kip::parse_kip(&kml).is_ok()),
+        ("parse_kip", &kql, anda_kip::parse_kip(&kql).is_ok()),
+        ("parse_meta", &meta, anda_kip::parse_meta(&meta).is_ok()),
+    ] {
+        st.count("json_string_in_command_checks");
+        if ok != reference.is_ok() {
+            // an empty NAME / search text may be refused for its own reasons: only judge non-empty strings
+            if reference.as_ref().map(|r| r.is_empty()).unwrap_or(false) {
+                continue;
+            }
+            st.violation(format!("C15/string-escape/{entry}-disagrees-with-the-literal"), json!({"command": text, "literal_is_well_formed": reference.is_ok(), "accepted": ok}));
+            return;
+        }
+    }
+}
+
 fn main() {
     proc::child_entry(child_case);
     let mut run = Run::from_args(
@@ -1274,6 +1349,10 @@ fn main() {
         section_wall.insert(name.to_string(), (now - t_prev).as_secs_f64());
         t_prev = now;
     };
+    if run.wants("json_strings") {
+        run.parallel("json_strings", t.pick(60_000, 3_000_000), 0.1, json_string_case);
+        lap("json_strings", &run, &mut section_wall);
+    }
     if run.wants("limits") {
         proc::run_section(&mut run, "limits", limits_cases(), 12, 0.25, w, stack_kib, wd);
         lap("limits", &run, &mut section_wall);
@@ -1340,6 +1419,8 @@ fn main() {
     run.floor("corpus_items", 500);
     run.floor("corpus_items_accepted", 350);
     run.floor("oracle_determinism", 300_000);
+    run.floor("json_string_surrogate_pairs_decoded", 1000);
+    run.floor("json_string_both_refuse", 1000);
     run.floor("oracle_agreement", 60_000);
     run.floor("oracle_serde_roundtrip", 15_000);
     run.floor("serde_text_roundtrips", 10_000);
